@@ -38,7 +38,9 @@ def corner_points():
               # the support namespace named like the encapsulee's innermost namespace (an unrooted B::Dzn:: inside A::B
               # binds to A::B), odd identifiers, ports not grouped by direction
               {'ns': 'N.M', 'prefix': 'M'}, {'ns': 'N.M', 'prefix': 'M', 'mc': 'p0:0'}, {'names': 'dunder', 'nreq': 2},
-              {'nprov': 2, 'nreq': 2, 'portorder': 'interleaved'}]
+              {'nprov': 2, 'nreq': 2, 'portorder': 'interleaved'},
+              # externs whose C++ type is not an identifier chain (comma, blank, parentheses, leading '::', 'struct X &')
+              {'extspell': 'exotic'}, {'extspell': 'exotic', 'mc': 'p0:0'}, {'extspell': 'exotic', 'mc': 'p0:0', 'mcsig': 'inout'}]
     out = []
     for d in deltas:
         pt = dict(M.BASE_POINT)
